@@ -7,3 +7,23 @@ package tagformat
 //@ func tagformat.NewTagReformattingMangler(tagName, enc, dec) (m)
 //@   safety C16
 //@   ensures m != nil && fresh(m) && m.tag == tagName
+
+//@ functype caseconversion.DecodeCasingFunc(f, s) (words, err)
+//@   pure
+
+// Tag reformatting is a one-to-one mangler: exactly one output field with the input's name and type (only
+// the tag differs), or an error; the single value comes back unchanged (C10).
+//@ func tagformat.(*TagReformattingMangler).Mangle(k, sf) (out, err)
+//@   props C10
+//@   safety C16
+//@   requires k != nil
+//@   requires wf_constructed_by_NewTagReformattingMangler: k.decodeCasingFunc != nil && k.encodeCasingFunc != nil
+//@   ensures C10_one_field_same_name_and_type_or_an_error: err == nil ==> len(out) == 1 && out[0].Name == sf.Name && out[0].Type == sf.Type
+//@        && out[0].Anonymous == sf.Anonymous
+
+//@ func tagformat.(*TagReformattingMangler).Unmangle(k, sf, vs) (v, err)
+//@   props C10
+//@   safety C16
+//@   requires C10_one_value_per_mangled_field: len(vs) == 1 && valid(vs[0].Value)
+//@   requires C10_value_has_the_mangled_field_type: kind(vtype(vs[0].Value)) == Struct ==> sf.Type != nil && convertible(vtype(vs[0].Value), sf.Type)
+//@   ensures C10_value_passes_through: err == nil && valid(v) && (kind(vtype(vs[0].Value)) != Struct ==> v == vs[0].Value)
